@@ -372,10 +372,12 @@ class RefServer:
         return a[1].decode("utf-8", "replace")
 
     def ok(self, text):
-        self.emit(status(b"OK", None, text))
+        lit = self.authenticated and self.ch.choose("status-text-literal", 2) == 1
+        self.emit(status(b"OK", None, text, literal=lit))
 
     def no(self, rcode, text):
-        self.emit(status(b"NO", rcode, text))
+        lit = self.authenticated and self.ch.choose("status-text-literal", 2) == 1
+        self.emit(status(b"NO", rcode, text, literal=lit))
 
     def do_CAPABILITY(self, args):
         self.emit(self.capability_lines())
